@@ -97,6 +97,24 @@ def docs():
         paths={"/things": {"get": {"operationId": "listThings", "parameters": [{"name": "colour", "in": "query", "schema": colour()},
                                                                               {"name": "shade", "in": "query", "schema": colour(default="green")}],
                                    "responses": ok("Second")}}})
+    # string and integer enums (by reference and inline, single values and arrays) at every place an operation can carry them,
+    # all REQUIRED so that the behaviour probe sends them: JSON / form / multipart bodies, path / query / header parameters, response
+    body_props = {"s": ref("StrE"), "i": ref("IntE"), "ss": {"type": "array", "items": ref("StrE")}, "ii": {"type": "array", "items": ref("IntE")},
+                  "inline_s": {"type": "string", "enum": ["p", "q"]}, "inline_i": {"type": "integer", "enum": [10, 20]}}
+    eb = {"type": "object", "required": list(body_props), "properties": body_props}
+    okb = {"200": {"description": "d", "content": {"application/json": {"schema": ref("EBody")}}}}
+    D["enums-everywhere"] = gen.base_doc(
+        {"StrE": {"type": "string", "enum": ["a", "b"]}, "IntE": {"type": "integer", "enum": [1, 2]}, "EBody": eb},
+        paths={"/json": {"post": {"operationId": "sendJson", "requestBody": {"required": True, "content": {"application/json": {"schema": ref("EBody")}}}, "responses": okb}},
+               "/form": {"post": {"operationId": "sendForm", "requestBody": {"required": True, "content": {"application/x-www-form-urlencoded": {"schema": ref("EBody")}}}, "responses": okb}},
+               "/multi": {"post": {"operationId": "sendMulti", "requestBody": {"required": True, "content": {"multipart/form-data": {"schema": ref("EBody")}}}, "responses": okb}},
+               "/q/{ps}/{pi}": {"get": {"operationId": "sendParams", "parameters": [
+                   {"name": "ps", "in": "path", "required": True, "schema": ref("StrE")}, {"name": "pi", "in": "path", "required": True, "schema": ref("IntE")},
+                   {"name": "qs", "in": "query", "required": True, "schema": ref("StrE")}, {"name": "qi", "in": "query", "required": True, "schema": ref("IntE")},
+                   {"name": "qss", "in": "query", "required": True, "schema": {"type": "array", "items": ref("StrE")}},
+                   {"name": "qii", "in": "query", "required": True, "schema": {"type": "array", "items": {"type": "integer", "enum": [10, 20]}}},
+                   {"name": "hs", "in": "header", "required": True, "schema": ref("StrE")}, {"name": "hi", "in": "header", "required": True, "schema": ref("IntE")}],
+                   "responses": okb}}})
     for name, fn in (("baseline31", "baseline_openapi_3.1.yaml"),):
         p = os.path.join(gen.REPO, "end_to_end_tests", fn)
         try:
@@ -142,6 +160,8 @@ def cases(tier):
                 if dname == "builtin-names" and opt not in ("class_override_enum", "literal_enums", "field_prefix_attr", "generate_all_tags", "docstrings_on_attributes"):
                     continue
                 if dname == "merge-enums" and opt not in ("class_override_merge", "literal_enums", "generate_all_tags"):
+                    continue
+                if dname == "enums-everywhere" and opt not in ("literal_enums", "field_prefix_attr", "docstrings_on_attributes", "generate_all_tags", "class_override_enum"):
                     continue
                 if opt == "use_path_prefixes_off" and dname not in ("titles", "shop"):
                     continue
